@@ -59,7 +59,10 @@ class Ref:
             outs = self.p.batch([" ".join(["wire"] + cc.ty_tokens(td)) for td in new]
                                 + [" ".join(["decdev"] + cc.ty_tokens(td)) for td in new])
             for i, td in enumerate(new):
-                self._wire[td] = (outs[i].strip() == "1", int(outs[len(new) + i]))
+                if outs[i].startswith("ERR") or outs[len(new) + i].startswith("ERR"):
+                    self._wire[td] = (False, 0)       # a name the reference does not know
+                else:
+                    self._wire[td] = (outs[i].strip() == "1", int(outs[len(new) + i]))
         return self._wire
 
     def enc(self, cases):
@@ -129,6 +132,37 @@ def case_json(c):
 
 
 # ------------------------------------------------------------------ the two oracles
+PER_CLASS = 3      # failures kept per input class (all are counted in the `oracle_failures_by_class` histogram)
+
+
+def report(R, what, case, observed, expected, cls):
+    R.count("oracle_failures_by_class", cls)
+    seen = R.__dict__.setdefault("_c07_seen", {})
+    seen[cls] = seen.get(cls, 0) + 1
+    if seen[cls] <= PER_CLASS:
+        R.fail(what, case, observed, expected, cls)
+
+
+def stringn_class(data):
+    """input class of a top-level STRINGN byte string (character size, count, characters)"""
+    if len(data) < 4:
+        return "header"
+    cs, cnt = struct.unpack("<HH", data[:4])
+    body = data[4:4 + cs * cnt]
+    if cs not in (1, 2, 4):
+        return "bad-size"
+    if cnt == 0:
+        return "count-0"
+    if len(data) - 4 < cs * cnt:
+        return "short"
+    if cs == 1:
+        return "size-1-non-ascii" if any(b >= 0x80 for b in body) else "size-1-ascii"
+    if cs == 2:
+        units = struct.unpack("<%dH" % cnt, body)
+        return "size-2-surrogates" if any(0xD800 <= u <= 0xDFFF for u in units) else "size-2"
+    return "size-4"
+
+
 def oracle_enc(R, ref, cases, impls, stream):
     specs = ref.enc(cases)
     for c, (sp, dev), im in zip(cases, specs, impls):
@@ -141,8 +175,11 @@ def oracle_enc(R, ref, cases, impls, stream):
         R.evaluations += 1
         if im == ("ok", 0, sp):
             continue
-        cls = "enc:" + (ENC_DEV.get(dev, str(dev)) if dev else "reference-bytes")
-        R.fail("encode differs from the reference codec", case_json(c), list(im), ["ok", 0, sp], cls)
+        if im[0] in ("hang", "crash"):
+            cls = "enc:" + im[0]
+        else:
+            cls = "enc:" + (ENC_DEV.get(dev, str(dev)) if dev else "reference-bytes")
+        report(R, "encode differs from the reference codec", case_json(c), list(im), ["ok", 0, sp], cls)
 
 
 def oracle_dec(R, ref, cases, impls, stream, devs):
@@ -158,14 +195,32 @@ def oracle_dec(R, ref, cases, impls, stream, devs):
             good = im[0] in ("err", "empty")
         if good:
             continue
-        if dev:
-            cls = "dec:" + DEC_DEV.get(dev, str(dev))
+        if im[0] in ("hang", "crash"):
+            cls = "dec:" + im[0]
         elif sp[0] == "trunc":
             cls = "dec:truncated-buffer"
+        elif dev == 12:
+            sub = stringn_class(c[2]) if c[1] == E("STRINGN") else "nested"
+            if sub == "size-2-surrogates":
+                # UTF-16 surrogate units: the fixed-width reference and UTF-16 read them differently and the
+                # documents do not say which is meant; no demand
+                R.count("unspecified_input", "STRINGN:size-2-surrogates")
+                continue
+            cls = "dec:STRINGN:" + sub
+        elif dev:
+            cls = "dec:" + DEC_DEV.get(dev, str(dev))
         else:
             cls = "dec:reference-value"
         exp = list(sp) if sp[0] == "ok" else ["rejected (%s)" % sp[0]]
-        R.fail("decode differs from the reference codec", case_json(c), list(im), exp, cls)
+        report(R, "decode differs from the reference codec", case_json(c), list(im), exp, cls)
+
+
+def impl_view(c):
+    """the call actually made on the implementation (and the model): DATE_AND_TIME's documented
+    encoder takes (time, date) positionally, so a top-level 2-tuple value is passed as *args"""
+    if c[0] == "enc" and c[1] == E("DATE_AND_TIME") and isinstance(c[2], tuple) and len(c[2]) == 2:
+        return ("enca", c[1], c[2])
+    return c
 
 
 def run_cases(R, mp, ref, cases, stream, budget=0.5):
@@ -173,8 +228,9 @@ def run_cases(R, mp, ref, cases, stream, budget=0.5):
     if not cases:
         return
     devs = ref.wire([c[1] for c in cases])
-    impls = cc.run_impl(cases, budget)
-    cc.corr(R, mp, cases, stream=stream, impl=impls)
+    views = [impl_view(c) for c in cases]
+    impls = cc.run_impl(views, budget)
+    cc.corr(R, mp, views, stream=stream, impl=impls)
     encs = [(c, im) for c, im in zip(cases, impls) if c[0] == "enc" and devs[c[1]][0]]
     decs = [(c, im) for c, im in zip(cases, impls) if c[0] == "dec" and devs[c[1]][0]]
     for c in cases:
@@ -200,18 +256,18 @@ def oracle_codes(R, ref):
         try:
             T = dt.DataTypes.get_type(code) if code else getattr(dt, name)
         except Exception as e:
-            R.fail("type code lookup raised", [code, name], type(e).__name__, name, f"codes:{name}:lookup")
+            R.fail("type code lookup raised", {"op": "codes", "code": code, "name": name}, type(e).__name__, name, f"codes:{name}:lookup")
             continue
         if T is None or not isinstance(T, type):
-            R.fail("type code does not resolve to a class", [code, name], repr(T), name, f"codes:{name}:lookup")
+            R.fail("type code does not resolve to a class", {"op": "codes", "code": code, "name": name}, repr(T), name, f"codes:{name}:lookup")
             continue
         ok_name = T.__name__ == name or (name == "EPATH" and issubclass(T, dt.EPATH))
         if not ok_name or T.code != code:
-            R.fail("type code resolves to another class", [code, name], [T.__name__, T.code], [name, code], f"codes:{name}:class")
+            R.fail("type code resolves to another class", {"op": "codes", "code": code, "name": name}, [T.__name__, T.code], [name, code], f"codes:{name}:class")
             continue
         if width >= 0:
             if T.size != width:
-                R.fail("class of a documented code reports another width", [code, name], T.size, width, f"codes:{name}:size")
+                report(R, "class of a documented code reports another width", {"op": "codes", "code": code, "name": name}, T.size, width, f"codes:{name}:size")
             # the width actually produced / consumed
             try:
                 if name == "DATE_AND_TIME":
@@ -224,9 +280,9 @@ def oracle_codes(R, ref):
                 s = BytesIO(b + b"\xaa\xbb")
                 T.decode(s)
                 if len(b) != width or s.tell() != width:
-                    R.fail("codec of a documented code uses another width", [code, name], [len(b), s.tell()], width, f"codes:{name}:codec-width")
+                    R.fail("codec of a documented code uses another width", {"op": "codes", "code": code, "name": name}, [len(b), s.tell()], width, f"codes:{name}:codec-width")
             except Exception as e:
-                R.fail("codec of a documented code raised on a plain value", [code, name], type(e).__name__, width, f"codes:{name}:codec")
+                R.fail("codec of a documented code raised on a plain value", {"op": "codes", "code": code, "name": name}, type(e).__name__, width, f"codes:{name}:codec")
 
 
 # ------------------------------------------------------------------ generators
@@ -479,17 +535,17 @@ def nan_payload_oracle(R, pats64):
             v = dt.LREAL.decode(b)
             back = struct.pack("<d", v)
         except Exception as e:
-            R.fail("LREAL.decode raised on an 8-byte pattern", b, type(e).__name__, "a float", "dec:LREAL:bits")
+            R.fail("LREAL.decode raised on an 8-byte pattern", {"op": "lreal-bits", "arg": {"b": b.hex()}}, type(e).__name__, "a float", "dec:LREAL:bits")
             continue
         if back != b:
-            R.fail("LREAL.decode does not preserve the IEEE bits", b, back, b, "dec:LREAL:bits")
+            R.fail("LREAL.decode does not preserve the IEEE bits", {"op": "lreal-bits", "arg": {"b": b.hex()}}, back, b, "dec:LREAL:bits")
         try:
             e = dt.LREAL.encode(v)
         except Exception as ex:
-            R.fail("LREAL.encode raised on a decoded value", b, type(ex).__name__, b, "enc:LREAL:bits")
+            R.fail("LREAL.encode raised on a decoded value", {"op": "lreal-bits", "arg": {"b": b.hex()}}, type(ex).__name__, b, "enc:LREAL:bits")
             continue
         if e != b:
-            R.fail("LREAL.encode does not emit the IEEE bits", b, e, b, "enc:LREAL:bits")
+            R.fail("LREAL.encode does not emit the IEEE bits", {"op": "lreal-bits", "arg": {"b": b.hex()}}, e, b, "enc:LREAL:bits")
     R.count("nan_payload_patterns", "LREAL", len(pats64))
 
 
@@ -565,14 +621,16 @@ def run(R, escalate=False):
 
 def replay(R, rp):
     f = rp.get("failure") or rp
-    c = case_of_json(f["case"]) if "case" in f else case_of_json(f)
+    c = f.get("case", f)
     mp = fw.ModelProc("Codec")
     ref = Ref()
     try:
-        if c[1] == ("codes",):
+        if c.get("op") == "codes":
             oracle_codes(R, ref)
+        elif c.get("op") == "lreal-bits":
+            nan_payload_oracle(R, [int.from_bytes(bytes.fromhex(c["arg"]["b"]), "little")])
         else:
-            run_cases(R, mp, ref, [c], "replay")
+            run_cases(R, mp, ref, [case_of_json(c)], "replay")
     finally:
         mp.close()
         ref.close()
